@@ -408,6 +408,45 @@ Section Trip.
   Qed.
 End Trip.
 
+(** ---- histories on one path ----
+    The handlers carry nothing from one interception to the next.  When the same path is intercepted again
+    and again - the file rewritten in between with other bytes, of the same length or not - the k-th
+    recording is made of what the file holds at the k-th interception.  A history is a list of file
+    system oracles (what getsize / read answer at that moment); whatever else the file system knows about
+    the file (modification time, inode) is not an input of the handlers. *)
+Section History.
+  Variable qp : list N -> str.
+  Variable qp_dec : str -> list N.
+  Hypothesis qp_roundtrip : forall b, bytes_ok b = true -> qp_dec (qp b) = b.
+
+  Definition fs_oracle : Type := (str -> res Z) * (str -> res (list N)).
+  Definition holds_at (h : handler) (p : str) (o : fs_oracle) (b : list N) : Prop :=
+    within_limit h (fst o) p /\ snd o p = Ans b /\ bytes_ok b = true.
+
+  Theorem output_history h args kwargs p (hist : list fs_oracle) (bs : list (list N)) :
+    passes_path h args kwargs p -> str_ok p = true -> Forall2 (holds_at h p) hist bs ->
+    map (fun o : fs_oracle => output_trip h (fst o) (snd o) qp qp_dec args kwargs) hist
+    = map (fun b => (Replayed (Ans (Holder b (VStr p))), [p])) bs.
+  Proof.
+    intros P Hp F. induction F as [|o b hist bs [W [R Hb]] _ IH]; [reflexivity|].
+    cbn [map]. rewrite IH. f_equal.
+    apply (output_roundtrip qp qp_dec qp_roundtrip (fst o) (snd o) h args kwargs p b P Hp W R Hb).
+  Qed.
+
+  Theorem input_history h writable args_rec kw_rec args_play kw_play p_rec p_play fs_play
+          (hist : list fs_oracle) (bs : list (list N)) :
+    passes_path h args_rec kw_rec p_rec -> passes_path h args_play kw_play p_play ->
+    str_ok p_rec = true -> writable p_play = true -> Forall2 (holds_at h p_rec) hist bs ->
+    map (fun o : fs_oracle => input_trip h (fst o) (snd o) writable qp qp_dec args_rec kw_rec args_play kw_play fs_play) hist
+    = map (fun b => (Replayed (Ans p_play, fs_set p_play b fs_play), [p_rec])) bs.
+  Proof.
+    intros P1 P2 Hp Wr F. induction F as [|o b hist bs [W [R Hb]] _ IH]; [reflexivity|].
+    cbn [map]. rewrite IH. f_equal.
+    apply (input_roundtrip qp qp_dec qp_roundtrip (fst o) (snd o) writable h args_rec kw_rec args_play kw_play
+                           p_rec p_play b fs_play P1 P2 Hp W R Hb Wr).
+  Qed.
+End History.
+
 (** the read journal of [intercept_file] is empty or the one path it was asked about *)
 Lemma intercept_opens_at_most_path h fsize fread args kwargs :
   snd (intercept_file h fsize fread args kwargs) = [] \/
